@@ -702,7 +702,7 @@ TARGETS = [
     {'name': 'find_header', 'props': ['C13'], 'fn': t_find_header,
      'encodes': 'multiboot2_header::Multiboot2Header::find_header + its magic closure (dev and release MIR); Windows::position/next, slice indexing and get through their specifications',
      'bound': 'buffer address 8-aligned, length symbolic < 2^32, every byte symbolic; magic position = any window index of the first min(len, 8192) bytes; stored length all 2^32 values; counterexamples extracted for len <= 20000'},
-    {'name': 'elf_sections', 'props': ['C19', 'C01', 'C05'], 'fn': t_elf_sections,
+    {'name': 'elf_sections', 'props': ['C19', 'C01', 'C05', 'C08'], 'fn': t_elf_sections,
      'encodes': 'multiboot2_common::DynSizedStructure::<TagHeader>::cast::<ElfSectionsTag> ElfSectionsTag::dst_len ElfSectionsTag::sections (dev and release MIR)',
      'bound': 'tag address, declared size (all 2^32), entry count, entry size, string-table index (all 2^32 each) and contents symbolic; no loop'},
 ]
